@@ -43,6 +43,8 @@ TEXT.update({
            "TLC design model + scenario scripts + " + TRACE_TECH + "clauses C08_*", "4/C08"),
  "C09": _t("C09_CentroidCurrent at every boundary for every deme (reported centroid vs mean of the current population, harness atom); C09_FarFromConsidered for every seed returned by FarEnough / NBC_FarEnough mechanisms against recomputed centroids of the considered demes.",
            TRACE_TECH + "clauses C09_*", "4/C09"),
+ "C10": _t("Sprout.tla defines each filter as a relation (acceptable outputs where the property leaves a choice); TLC explores every composition order of DemeLimit / FarEnough / LevelLimit / SkipSameSprout as a state machine (filters only remove, limits hold whatever comes later) and writes per-filter tables (all candidate sets with ties, both directions, occupancy incl. more active demes than the limit); every row is replayed on the real filter objects. Generators: provenance clauses (candidates from current populations of active non-leaf demes, BestPerDeme proposes the current best, used subset of generated) on every round of every recorded run.",
+           "TLA+ relations + state machine (Sprout.tla) checked by TLC; exhaustive tables replayed on the real filters; " + TRACE_TECH + "clauses C10_*", "4/C10"),
  "C11": _t("For all consecutive generation pairs of every population-engine deme TLC checks: each individual (genome id, rank) was in the preceding generation or its genome was evaluated in the iteration that produced the generation (iteration call sets delimited by the deme's own consults).",
            TRACE_TECH + "clause C11_BredFromPredecessor", "4/C11"),
  "C12": _t("For all consecutive generation pairs: best rank not worse (SEA family with elites, DE, SHADE), sorted rank vector componentwise not worse (DE, SHADE), generation size = configured population size (CMA: constant lambda).",
